@@ -162,8 +162,15 @@ theorem dateLex_unfold (v11 : Bool) (t : List Char) : XSD.dateLex v11 t =
           · exact absurd ⟨_, _, _, _, _, rfl⟩ hshape
           · rfl
 
+/-- C11 keeps its own transcription of `strip`, of the timezone group and of its rendering (`EPV.CalLex`, so that the builds
+of the two properties are independent); they are the definitions of C10's `EPV.Lex` -/
+theorem calPyStrip_eq : CalLex.pyStrip = Lex.pyStrip := rfl
+theorem calTzParse_eq : CalLex.tzParse = Lex.tzParse := rfl
+theorem calTzCanon_eq : CalLex.tzCanon = Lex.tzCanon := rfl
+
 theorem parseTzTail_eq (t : List Char) : parseTzTail t = XSD.tzSuffix? t := by
   unfold parseTzTail XSD.tzSuffix?
+  rw [calTzParse_eq]
   cases t with
   | nil => rfl
   | cons c r => simp [tzParse_eq_lookup]
@@ -1083,6 +1090,7 @@ theorem stamp_tz (s : List Char) (w : DT) (h : dateTimeOfLex true s = .ok w) :
       · rw [if_neg he] at h
         have he' : tail.isEmpty = false := by simpa using he
         rw [he']
+        rw [calTzParse_eq] at h
         cases hz : Lex.tzParse tail with
         | none => rw [hz] at h; cases h
         | some z =>
